@@ -554,6 +554,17 @@ class Gef:
             return [((blk, 10 ** 6), 'ret', 'true', ((ct, tr),)), ((blk, 10 ** 6), 'ret', 'false', ((ct, not tr),))]
         return [((blk, 10 ** 6), 'ret', self.term(v), ())]
 
+    def _chain_test(self, s_blk, block):
+        """s_blk is a test of a short-circuit chain whose else side (a merge entered from s_blk, directly or through an empty
+        landing block) dominates `block`"""
+        b = self.b
+        cfg = b.cfg
+        for succ in cfg.succ[s_blk]:
+            for m in (succ, *(cfg.succ[succ] if b.mir['blocks'][succ]['term'].get('k') == 'goto' and len(cfg.pred[succ]) == 1 else ())):
+                if len(cfg.pred[m]) >= 2 and m not in cfg.loops() and (m == block or cfg.dominates(m, block)):
+                    return True
+        return False
+
     def selection_merges(self, vals, block):
         """merges (non-loop phis with 2-3 operands) that the given values, or the tests dominating `block`, read: {merge
         block: [phi, ..]}; an effect that reads such a merge is one effect per way of reaching the merge"""
@@ -644,7 +655,7 @@ class Gef:
                 finally:
                     self.choice, self.memo = saved_choice, saved_memo
                 for (pt2, kind, text, extra) in entries:
-                    g = tuple(sorted(g0 | set(extra), key=str))
+                    g = tuple(sorted(simplify_all(g0 | set(extra)), key=str))
                     # contradictory guards: this way of reaching the merge cannot lead here
                     if any((ct, (not tr)) in g for (ct, tr) in g if isinstance(tr, bool)):
                         continue
@@ -726,8 +737,25 @@ def all_term(conj):
 
 
 def parse_all(term):
+    """members of all(a=T & b=F & all(..)=F): split at the top level only"""
+    inner = term[4:-1]
+    parts, depth, cur, i = [], 0, '', 0
+    while i < len(inner):
+        ch = inner[i]
+        if ch in '({':
+            depth += 1
+        elif ch in ')}':
+            depth -= 1
+        if depth == 0 and inner.startswith(' & ', i):
+            parts.append(cur)
+            cur = ''
+            i += 3
+            continue
+        cur += ch
+        i += 1
+    parts.append(cur)
     mem = []
-    for m_ in term[4:-1].split(' & '):
+    for m_ in parts:
         ct_, _, tr_ = m_.rpartition('=')
         mem.append((ct_, tr_ == 'True'))
     return mem
@@ -1000,6 +1028,17 @@ def side_partitions(form):
     return out
 
 
+def renorm_all(c2):
+    """re-sort an all(..) term (and the ones nested in it) after its members changed"""
+    if not (c2.startswith('all(') and c2.endswith(')')):
+        return c2
+    mem = []
+    for ct_, tr_ in parse_all(c2):
+        ct_ = renorm_all(resort(sort_eq(ct_)))
+        mem.append('%s=%s' % (ct_, tr_))
+    return 'all(' + ' & '.join(sorted(set(mem))) + ')'
+
+
 def sort_eq(c2):
     if c2.startswith('Eq(') and c2.endswith(')'):
         inner = c2[3:-1]
@@ -1029,12 +1068,7 @@ def mirror_form(form):
             c2 = swap_lr(c)
             # keep == operands sorted after the swap
             c2 = sort_eq(c2)
-            if c2.startswith('all(') and c2.endswith(')'):
-                mem = []
-                for m_ in c2[4:-1].split(' & '):
-                    ct_, _, tr_ = m_.rpartition('=')
-                    mem.append('%s=%s' % (resort(sort_eq(ct_)), tr_))
-                c2 = 'all(' + ' & '.join(sorted(mem)) + ')'
+            c2 = renorm_all(c2)
             g2.append((resort(c2), tr))
         res.append((tuple(sorted(g2, key=str)), kind, resort(mt(text))))
     return sort_independent(res)
